@@ -27,7 +27,7 @@ class B:
 
 # structure: list of statements
 #  ("decl", d, [uses in initialiser])   ("use", u)   ("assign", u)   ("block", body)   ("if", [cond uses], then, else|None)
-#  ("loop", [cond uses], body)   ("case", d, arm, else)   ("closure", d, [param decls], body)   ("localfn", d, [param decls], body)   ("redecl", d, [uses])
+#  ("loop1", d, [uses in initialiser]) = `loop false n := ..` (body is a single declaration)   ("loop", [cond uses], body)   ("case", d, arm, else)   ("closure", d, [param decls], body)   ("localfn", d, [param decls], body)   ("redecl", d, [uses])
 def T(*s): return list(s)
 
 
@@ -45,6 +45,8 @@ def templates():
     mk("local_function_recursion", lambda b: T(("localfn", b.occ("d"), [b.occ("d")], T(("use", b.occ("u")), ("use", b.occ("u")))), ("use", b.occ("u"))))
     mk("assign_targets", lambda b: T(("decl", b.occ("d"), []), ("block", T(("decl", b.occ("d"), []), ("assign", b.occ("u")))), ("assign", b.occ("u")), ("use", b.occ("u"))))
     mk("nested_three_levels", lambda b: T(("decl", b.occ("d"), []), ("block", T(("decl", b.occ("d"), []), ("if", [b.occ("u")], T(("decl", b.occ("d"), []), ("use", b.occ("u"))), None), ("use", b.occ("u")))), ("use", b.occ("u"))))
+    # a loop / a branch whose body is ONE statement instead of a do-block: a local declared there ends with the loop
+    mk("loop_body_is_one_declaration", lambda b: T(("decl", b.occ("d"), []), ("loop1", b.occ("d"), [b.occ("u")]), ("use", b.occ("u")), ("loop1", b.occ("d"), []), ("use", b.occ("u"))))
     mk("sibling_branches", lambda b: T(("if", [], T(("decl", b.occ("d"), [])), T(("use", b.occ("u")))), ("block", T(("decl", b.occ("d"), []))), ("block", T(("use", b.occ("u"))))))
     return out
 
@@ -62,6 +64,7 @@ def render(st, lvl, use_text="n%d"):
             out += [I + "if %s do" % cond] + render(s[2], lvl + 1)
             if s[3] is not None: out += [I + "else"] + render(s[3], lvl + 1)
             out.append(I + "end")
+        elif k == "loop1": out.append(I + "loop 1 > 2 n%d := %d%s" % (s[1], 100 + s[1], "".join(" + n%d * 0" % u for u in s[2])))
         elif k == "loop":
             out += [I + "lc%d := 0" % id(s) if False else I + "lcnt := 0", I + "loop lcnt < 1 and %s do" % (" and ".join("n%d > 0" % u for u in s[1]) or "true"), I + "    lcnt += 1"] + render(s[2], lvl + 1) + [I + "end"]
         elif k == "case":
@@ -100,6 +103,8 @@ def expected(st, name, visible=None):
                 for u in s[1]: resolve(u, vis)
                 walk(s[2], vis)
                 if s[3] is not None: walk(s[3], vis)
+            elif k == "loop1":
+                for u in s[2]: resolve(u, vis)
             elif k == "loop":
                 for u in s[1]: resolve(u, vis)
                 walk(s[2], vis)
